@@ -1015,3 +1015,105 @@ def with_mc(entry, prop_ids):
 
 for _e in set(REGISTRY.values()):
     with_mc(_e, None)
+
+
+# =========================================================================== hook H3 traces
+import calltrace  # noqa: E402
+
+CALL_INVS = WALK_INVS["C09"] + WALK_INVS["C10"] + ["P_C13_nopanic", "P_C13_refusal", "P_C13_enabled", "P_C13_effect",
+                                                    "P_C13_cycles"]
+
+
+def validate_calls(prop, invs, name, view, calls, out, label, payload_extra=None, groups=None):
+    """TraceSched over self-contained (pre, call, post) events recorded by hook H3."""
+    groups = groups if groups is not None else [(name, view, calls)]
+    calls = [c for g in groups for c in g[2]]
+    if not calls:
+        return 0
+    d = common.cache_dir("calls_%d" % os.getpid())
+    traces = calltrace.to_trace_multi(groups)
+    chunks = []
+    for k, t in enumerate(traces):
+        p = os.path.join(d, "%s_%d.ndjson" % (label, k))
+        common.write_ndjson(p, t)
+        chunks.append(p)
+    viols = run_tlc_chunks("TraceSched", invs, chunks, "TraceSched/%s" % label, out, workers=2)
+    for ci, v in viols:
+        ev = traces[ci][v["l"] - 1]
+        sig = "%s:%s:%s" % (v["name"], ev.get("op", ev["ev"]), label)
+        payload = {"property": prop, "kind": "call", "formula": v["name"], "signature": sig, "source": label,
+                   "call": {k: ev.get(k) for k in ("op", "args", "ok", "msg", "ret")},
+                   "pre": traces[ci][ev["pi"] - 1]["S"] if ev.get("pi") else None}
+        if payload_extra:
+            payload.update(payload_extra)
+        out.findings.append(Finding(prop, v["name"], "%s@%d" % (ev.get("name", name), v["l"]), sig,
+                                    "op=%s args=%s" % (ev.get("op"), json.dumps(ev.get("args"))), payload))
+    for p in chunks:
+        os.remove(p)
+    return len(calls)
+
+
+def repo_tests_leg(prop, out):
+    """The repository's own solution tests, run with the hooks on: every modification call they make
+    is validated against the specification (all invariants in every state, not one assertion per test)."""
+    d = common.cache_dir("repo_tests")
+    cp = os.path.join(d, "calls.json")
+    if os.path.exists(cp):
+        with open(cp) as f:
+            rec = json.load(f)
+    else:
+        calls, passed, failed = calltrace.repo_tests_calls()
+        rec = {"calls": calls, "passed": passed, "failed": failed}
+        with open(cp, "w") as f:
+            json.dump(rec, f)
+    I, view = calltrace.repo_test_instance()
+    invs = [x for x in (WALK_INVS.get(prop) or CALL_INVS) if x != "P_C13_input"]
+    n = validate_calls(prop, invs, "repo_tests", view, rec["calls"], out, "repo_tests")
+    out.coverage["repo_tests_with_hooks"] = {"tests_passed": rec["passed"], "tests_failed": rec["failed"],
+                                             "modification_calls_validated": n}
+    out.traces += rec["passed"]
+
+
+def _wrap_walk_with_repo_tests():
+    for pid in ("C09", "C10", "C13"):
+        entry = REGISTRY[pid]
+        orig = entry.run
+
+        def run(prop, tier, seed, _orig=orig):
+            out = _orig(prop, tier, seed)
+            repo_tests_leg(prop, out)
+            return out
+
+        entry.run = run
+
+
+_wrap_walk_with_repo_tests()
+
+
+def _wrap_c11_inner():
+    entry = REGISTRY["C11"]
+    orig = entry.run
+
+    def run(prop, tier, seed):
+        out = orig(prop, tier, seed)
+        info = entry.corpus(tier, seed)
+        insts = {}
+        total = 0
+        by_name = {}
+        for c in info["chunks"]:
+            ip = os.path.join(os.path.dirname(c), "inner_" + os.path.basename(c).split("_")[1].split(".")[0] + ".json")
+            if os.path.exists(ip):
+                with open(ip) as f:
+                    by_name.update(json.load(f))
+        names = [n for n, calls in by_name.items() if calls]
+        all_insts = {n: entry.instance_of(info, n) for n in names}
+        caps = walks.observed_caps(list(all_insts.values())) if names else {}
+        groups = [(n, walks.walk_view(all_insts[n], caps), by_name[n]) for n in names]
+        total = validate_calls(prop, CALL_INVS, "swaps", None, None, out, "swap_inner", groups=groups)
+        out.coverage["inner_swap_calls_validated"] = total
+        return out
+
+    entry.run = run
+
+
+_wrap_c11_inner()
